@@ -115,6 +115,7 @@ def ofSlot : Slot → Sx
   | .pipeR i => .list [.sym "pipeR", ofNat i]
   | .capOutW => .sym "capOutW"
   | .capErrW => .sym "capErrW"
+  | .shellErr => .sym "shellErr"
 
 def ofExcept {α} (f : α → Sx) : Except Err α → Sx
   | .ok a => .list [.sym "ok", f a]
